@@ -680,6 +680,38 @@ def activate (s : State) (p : Proposal) : State :=
            inactive := removeQ (p.depositEnd, p.id) s.inactive,
            active := insertQ (activationQueueTime s p, p.id) s.active }
 
+/-- the locals of `ActivateVotingPeriod`: the store, the proposal it received BY VALUE, `startTime`, `votingPeriod`, `endTime` -/
+structure ActLocals where
+  s : State
+  p : Proposal
+  start : Nat := 0
+  period : Nat := 0
+  endT : Nat := 0
+
+/-- one top-level statement of `ActivateVotingPeriod`, by its regenerated tag -/
+def activateStep (l : ActLocals) (tag : String) : ActLocals :=
+  if tag == "startTime=blockTime" then { l with start := l.s.time }
+  else if tag == "setVotingStart" then { l with p := { l.p with votingStart := l.start } }
+  else if tag == "periodByExpedited" then
+    { l with period := if l.p.expedited then l.s.params.expVotingPeriod else l.s.params.votingPeriod }
+  else if tag == "customPeriod" then
+    -- `GetCustomMsgVotingPeriod(ctx, votingPeriod, proposal)`: its body is read separately (`customPeriodLookupOk`, `periodLookupType`)
+    (if customPeriodLookupOk then
+      match getCustom l.s.custom (propTypeP l.p.msgs) with
+      | some c => { l with period := c.votingPeriod }
+      | none => l
+     else l)
+  else if tag == "endTime=start+period" then { l with endT := l.p.votingStart + l.period }
+  else if tag == "setVotingEnd" then { l with p := { l.p with votingEnd := l.endT } }
+  else if tag == "setStatusVoting" then { l with p := { l.p with status := .voting } }
+  else if tag == "setProposal" then { l with s := { l.s with props := putProp l.s.props l.p } }
+  else if tag == "removeInactive" then { l with s := { l.s with inactive := removeQ (l.p.depositEnd, l.p.id) l.s.inactive } }
+  else if tag == "setActive:votingEnd" then { l with s := { l.s with active := insertQ (l.p.votingEnd, l.p.id) l.s.active } }
+  else l
+
+/-- `ActivateVotingPeriod`, statement by statement in SOURCE ORDER (`activateSteps` is regenerated from the AST on every run) -/
+def activateRun (s : State) (p : Proposal) : State := (activateSteps.foldl activateStep { s := s, p := p }).s
+
 /-- `proposal.GetMinDepositFromParams(params)` -/
 def defaultMin (s : State) (expedited : Bool) : Nat :=
   if expedited then s.params.expMinDeposit else s.params.minDeposit
@@ -715,7 +747,7 @@ def depStep (who : Addr) (amt : Nat) (l : DepLocals) (tag : String) : DepLocals 
   else if tag == "setProposal" then { l with s := { l.s with props := putProp l.s.props l.p } }
   else if tag == "msgMin" then { l with min := minForMsgs l.s.custom (l.min.fx.getD 0) l.p.msgs }
   else if tag == "activate" then
-    (if l.p.status == .deposit && reaches l.p.total l.min then { l with s := activate l.s l.p } else l)
+    (if l.p.status == .deposit && reaches l.p.total l.min then { l with s := activateRun l.s l.p } else l)
   else if tag == "setDeposit" then
     { l with s := { l.s with deps := addDep l.s.deps l.p.id who amt, paid := l.s.paid ++ [⟨l.p.id, who, amt⟩] } }
   else l
